@@ -1,9 +1,94 @@
-(* C04 — theorems are added below as the proofs are completed; see DESIGN.md *)
+(* C04 — shape features equal their documented definitions.
+   Model: Model/Cycles.v (shape_of in the peak frame; rename_shape for trough centring, which the
+   code obtains by analysing the NEGATED signal).  row_ordered is what C01 establishes for every
+   row; row_small bounds the sample indices by 2^52 so that int64 -> float64 conversion is exact.
+   Structural statements have no axioms; the range statements are about binary64 and go
+   through Flocq (stdlib float axioms + the classical-reals axioms, see Print Assumptions). *)
 From Coq Require Import List Arith Bool ZArith Floats.PrimFloat.
 Import ListNotations.
-From ByC Require Import Base.Result Model.Cycles Model.Labels.
+From ByC Require Import Base.Result Base.ListAux Base.FloatBase Base.FloatFacts Model.Cycles Proofs.Shape.
 
-Theorem C04_placeholder_period_is_next_minus_last : forall sigc amp r,
-  period (shape_of sigc amp r) = (s_next r - s_last r)%Z.
-Proof. reflexivity. Qed.
-Print Assumptions C04_placeholder_period_is_next_minus_last.
+(* period = next side - last side = time_rise + time_decay, in both centrings *)
+Theorem C04_period : forall sigc amp r,
+  period (shape_of sigc amp r) = (s_next r - s_last r)%Z /\
+  period (shape_of sigc amp r) = (time_rise (shape_of sigc amp r) + time_decay (shape_of sigc amp r))%Z.
+Proof. exact shape_period. Qed.
+Print Assumptions C04_period.
+
+Theorem C04_period_trough_centred : forall sigc amp r,
+  period (rename_shape (shape_of sigc amp r)) = (s_next r - s_last r)%Z /\
+  period (rename_shape (shape_of sigc amp r)) =
+    (time_rise (rename_shape (shape_of sigc amp r)) + time_decay (rename_shape (shape_of sigc amp r)))%Z.
+Proof. exact shape_period_renamed. Qed.
+Print Assumptions C04_period_trough_centred.
+
+(* every peak-frame column is its documented formula *)
+Theorem C04_formulas : forall sigc amp r, let f := shape_of sigc amp r in
+  period f = (s_next r - s_last r)%Z /\
+  time_peak f = (s_zx_decay r - s_zx_rise r)%Z /\
+  time_trough f = (s_zx_rise r - s_last_zx r)%Z /\
+  time_decay f = (s_next r - s_center r)%Z /\
+  time_rise f = (s_center r - s_last r)%Z /\
+  volt_peak f = at_ sigc (s_center r) /\
+  volt_trough f = at_ sigc (s_last r) /\
+  volt_decay f = (at_ sigc (s_center r) - at_ sigc (s_next r))%float /\
+  volt_rise f = (at_ sigc (s_center r) - at_ sigc (s_last r))%float /\
+  volt_amp f = ((volt_decay f + volt_rise f) / 2)%float /\
+  time_rdsym f = (FloatBase.Z2F (time_rise f) / FloatBase.Z2F (period f))%float /\
+  time_ptsym f = (FloatBase.Z2F (time_peak f) / FloatBase.Z2F (time_peak f + time_trough f))%float /\
+  band_amp f = fmean (zslice amp (s_last r) (s_next r)).
+Proof. exact shape_formulas. Qed.
+Print Assumptions C04_formulas.
+
+(* spans between midpoints are non-negative and rise/decay strictly inside the period *)
+Theorem C04_durations : forall sigc amp r, row_ordered r -> let f := shape_of sigc amp r in
+  (0 <= time_peak f)%Z /\ (0 <= time_trough f)%Z /\
+  (time_peak f + time_trough f = s_zx_decay r - s_last_zx r)%Z /\
+  (0 < time_peak f + time_trough f)%Z /\
+  (0 < time_rise f < period f)%Z /\ (0 < time_decay f < period f)%Z.
+Proof. exact shape_times_nonneg. Qed.
+Print Assumptions C04_durations.
+
+(* binary64: time_rdsym strictly in (0,1), time_ptsym in [0,1] — peak-centred *)
+Theorem C04_symmetry_ranges_peak : forall sigc amp r, row_ordered r -> row_small r ->
+  let f := shape_of sigc amp r in
+  (0 <? time_rdsym f)%float = true /\ (time_rdsym f <? 1)%float = true /\
+  (0 <=? time_ptsym f)%float = true /\ (time_ptsym f <=? 1)%float = true.
+Proof. exact shape_sym_range. Qed.
+Print Assumptions C04_symmetry_ranges_peak.
+
+(* ... and trough-centred, where the code computes 1 - x *)
+Theorem C04_symmetry_ranges_trough : forall sigc amp r, row_ordered r -> row_small r ->
+  let f := rename_shape (shape_of sigc amp r) in
+  (0 <? time_rdsym f)%float = true /\ (time_rdsym f <? 1)%float = true /\
+  (0 <=? time_ptsym f)%float = true /\ (time_ptsym f <=? 1)%float = true.
+Proof. exact shape_sym_range_renamed. Qed.
+Print Assumptions C04_symmetry_ranges_trough.
+
+(* the trough-centred table, read against the ORIGINAL (un-negated) signal *)
+Theorem C04_trough_table_against_original_signal : forall raw amp r,
+  (0 <= s_last r < Z.of_nat (length raw))%Z ->
+  (0 <= s_center r < Z.of_nat (length raw))%Z ->
+  (0 <= s_next r < Z.of_nat (length raw))%Z ->
+  let f := rename_shape (shape_of (map PrimFloat.opp raw) amp r) in
+  let vl := at_ raw (s_last r) in
+  let vc := at_ raw (s_center r) in
+  let vn := at_ raw (s_next r) in
+  volt_trough f = vc /\ volt_peak f = vl /\
+  time_rise f = (s_next r - s_center r)%Z /\ time_decay f = (s_center r - s_last r)%Z /\
+  time_trough f = (s_zx_decay r - s_zx_rise r)%Z /\
+  time_peak f = (s_zx_rise r - s_last_zx r)%Z /\
+  period f = (s_next r - s_last r)%Z /\
+  volt_decay f = (PrimFloat.opp vc - PrimFloat.opp vl)%float /\
+  volt_rise f = (PrimFloat.opp vc - PrimFloat.opp vn)%float /\
+  (finite vc = true -> finite vl = true -> finite (vl - vc)%float = true ->
+   FR (volt_decay f) = FR (vl - vc)%float /\ finite (volt_decay f) = true) /\
+  (finite vc = true -> finite vn = true -> finite (vn - vc)%float = true ->
+   FR (volt_rise f) = FR (vn - vc)%float /\ finite (volt_rise f) = true).
+Proof. exact trough_shape_against_original. Qed.
+Print Assumptions C04_trough_table_against_original_signal.
+
+(* non-vacuity: a concrete row meets the hypotheses *)
+Theorem C04_hypotheses_satisfiable : row_ordered ex_row /\ row_small ex_row.
+Proof. exact ex_row_ok. Qed.
+Print Assumptions C04_hypotheses_satisfiable.
